@@ -236,6 +236,13 @@ impl<'a> LocalBoxFuture<'a, Result<(usize, BoxedServerService), ()>> {
 //@extract_type file=actix-server/src/worker.rs item="struct Shutdown"
 //@extract_type file=actix-server/src/worker.rs item="enum WorkerState"
 
+impl Default for WorkerServiceStatus {
+//@extract file=actix-server/src/worker.rs item="impl Default for WorkerServiceStatus / fn default" ret=r props=C07 name=worker::status_default
+//@spec
+    ensures r is Unavailable,      // [C07] a service that has not been polled yet is not called
+//@end
+}
+
 impl Default for WorkerState {
     fn default() -> Self { WorkerState::Unavailable }
 }
@@ -475,7 +482,7 @@ impl ServerWorker {
 
 #[verifier::exec_allows_no_decreases_clause]
 #[verifier::loop_isolation(false)]
-//@extract file=actix-server/src/worker.rs item="impl Future for ServerWorker / fn poll" ret=r props=C01,C06,C07 intended_panics alias_this name=worker::poll
+//@extract file=actix-server/src/worker.rs item="impl Future for ServerWorker / fn poll" ret=r props=C01,C06,C07,C02,C03 intended_panics alias_this name=worker::poll
 //@spec
     requires
         old(self).wf(),
